@@ -141,7 +141,7 @@ func signature(text string) (string, error) {
 func signatureNow(text string) (string, error) {
 	var sp *spec.Spec
 	var err error
-	if perr := rec.Guard(func() { sp, err = spec.Parse("t.ebnf", strings.NewReader(text)) }); perr != nil {
+	if perr := rec.Guard(func() { sp, err = spec.Parse("t.ebnf", ref.Source(text)) }); perr != nil {
 		return "", perr
 	}
 	if err != nil {
@@ -175,7 +175,7 @@ func leaves(text string) ([]ref.Tok, error) {
 	var err error
 	if perr := rec.Guard(func() {
 		var p *ebnf.Parser
-		p, err = ebnf.New("t.ebnf", strings.NewReader(text))
+		p, err = ebnf.New("t.ebnf", ref.Source(text))
 		if err == nil && len(text) > 4096 {
 			// a second parser for another long text is created before this one runs: what this one reads must not
 			// depend on it (a reader that has only loaded the first part of its file keeps reading its own file)
@@ -292,7 +292,7 @@ func positionsOf(text, msg string) []int {
 func checkDiagnosticPositions(baseText, text string) error {
 	raw := func(s string) (string, error) {
 		var err error
-		if perr := rec.Guard(func() { _, err = spec.Parse("t.ebnf", strings.NewReader(s)) }); perr != nil {
+		if perr := rec.Guard(func() { _, err = spec.Parse("t.ebnf", ref.Source(s)) }); perr != nil {
 			return "", perr
 		}
 		if err == nil {
@@ -328,7 +328,7 @@ func checkDefinitionPositions(baseText, text string) error {
 	ordinals := func(s string) ([]string, error) {
 		var sp *spec.Spec
 		var err error
-		if perr := rec.Guard(func() { sp, err = spec.Parse("t.ebnf", strings.NewReader(s)) }); perr != nil {
+		if perr := rec.Guard(func() { sp, err = spec.Parse("t.ebnf", ref.Source(s)) }); perr != nil {
 			return nil, perr
 		}
 		if err != nil || sp == nil {
